@@ -34,4 +34,176 @@ theorem Store.get_put_ne (st : Store) (n m : String) (o : Obj) (h : m ≠ n) :
       have : (n == m) = false := by simp; exact fun e => h e.symm
       simp [this]
 
+/-! ## Subsequence -/
+
+theorem tmod_neg_one (n : Nat) (h : 1 < n) : Int.tmod (-1) (n : Int) = -1 := by
+  rw [Int.neg_tmod, Int.tmod_eq_of_lt (by omega) (by omega)]
+
+/-- circular mode, normalised `from`, and the value `b'` of the normalised `to` known -/
+theorem subsequence_circ_core (s : Bytes) (a : Nat) (t : Int) (b' : Nat) (ha : a < s.length)
+    (h2 : Int.tmod (t - 1) (s.length : Int) + 1 = (b' : Int)) :
+    subsequence s a t true =
+      .ok (if a < b' then (s.drop a).take (b' - a) else s.drop a ++ s.take b', a) := by
+  have h1 : Int.tmod (a : Int) (s.length : Int) = a := Int.tmod_eq_of_lt (by omega) (by omega)
+  have hs : s ≠ [] := List.ne_nil_of_length_pos (by omega)
+  have e6 : ¬ (b' : Int) < 0 := by omega
+  have e2 : ¬ (a : Int) < 0 := by omega
+  unfold subsequence
+  simp only [h1, h2]
+  by_cases hab : a < b'
+  · simp [hs, hab, e2, e6]
+  · simp [hs, hab, e2, e6]
+
+theorem window_lt (s : Bytes) (a b : Nat) (ha : a ≤ s.length) (hb : b ≤ s.length) :
+    ((s ++ s).drop a).take (b - a) = (s.drop a).take (b - a) := by
+  rw [List.drop_append_of_le_length (by omega), List.take_append_of_le_length]
+  simp only [List.length_drop]; omega
+
+theorem window_ge (s : Bytes) (a b : Nat) (ha : a ≤ s.length) :
+    ((s ++ s).drop a).take (b + s.length - a) = s.drop a ++ s.take b := by
+  rw [List.drop_append_of_le_length ha]
+  have : b + s.length - a = (s.drop a).length + b := by simp only [List.length_drop]; omega
+  rw [this, List.take_length_add_append]
+
+/-! ## The in-place two-index loop -/
+
+/-- the two-index loop, parameterised by the byte transform (`nucComplement` or `id`) -/
+def genLoop (f : UInt8 → UInt8) : Nat → Array UInt8 → Nat → Nat → Array UInt8
+  | 0, s, _, _ => s
+  | fuel+1, s, i1, j =>
+    if i1 ≥ j + 1 then
+      let i := i1 - 1
+      let a := f (s.getD i 0)
+      let b := f (s.getD j 0)
+      genLoop f fuel ((s.setIfInBounds j a).setIfInBounds i b) i (j + 1)
+    else s
+
+theorem rcLoop_eq_genLoop (fuel : Nat) (s : Array UInt8) (i1 j : Nat) :
+    rcLoop fuel s i1 j = genLoop nucComplement fuel s i1 j := by
+  induction fuel generalizing s i1 j with
+  | zero => rfl
+  | succ n ih => simp only [rcLoop, genLoop, ih]
+
+theorem revLoop_eq_genLoop (fuel : Nat) (s : Array UInt8) (i1 j : Nat) :
+    revLoop fuel s i1 j = genLoop id fuel s i1 j := by
+  induction fuel generalizing s i1 j with
+  | zero => rfl
+  | succ n ih => simp only [revLoop, genLoop, ih, id]
+
+/-- loop invariant: positions `< j` and `≥ i1` hold their final value, the middle is untouched -/
+def LoopInv (f : UInt8 → UInt8) (l : List UInt8) (s : Array UInt8) (i1 j : Nat) : Prop :=
+  s.size = l.length ∧ j + i1 = l.length ∧
+  ∀ k, k < l.length →
+    s[k]? = some (if k < j ∨ i1 ≤ k then f (l[l.length - 1 - k]?.getD 0) else l[k]?.getD 0)
+
+theorem LoopInv.init (f : UInt8 → UInt8) (l : List UInt8) : LoopInv f l l.toArray l.length 0 := by
+  refine ⟨by simp, by simp, ?_⟩
+  intro k hk
+  have : ¬ (k < 0 ∨ l.length ≤ k) := by omega
+  simp only [this, if_false]
+  simp [hk]
+
+theorem LoopInv.final {f : UInt8 → UInt8} {l : List UInt8} {s : Array UInt8} {i1 j : Nat}
+    (h : LoopInv f l s i1 j) (hij : i1 ≤ j) : s.toList = (l.map f).reverse := by
+  obtain ⟨hsz, hsum, hk⟩ := h
+  apply List.ext_getElem?
+  intro k
+  rw [Array.getElem?_toList]
+  by_cases hkn : k < l.length
+  · rw [hk k hkn, List.getElem?_reverse (by simpa using hkn)]
+    have : k < j ∨ i1 ≤ k := by omega
+    simp only [this, if_true, List.length_map, List.getElem?_map]
+    have h2 : l.length - 1 - k < l.length := by omega
+    simp [h2]
+  · rw [Array.getElem?_eq_none (by omega), List.getElem?_eq_none (by simp; omega)]
+
+theorem LoopInv.step {f : UInt8 → UInt8} {l : List UInt8} {s : Array UInt8} {i1 j : Nat}
+    (h : LoopInv f l s i1 j) (hij : i1 ≥ j + 1) :
+    LoopInv f l ((s.setIfInBounds j (f (s.getD (i1 - 1) 0))).setIfInBounds (i1 - 1) (f (s.getD j 0)))
+      (i1 - 1) (j + 1) := by
+  obtain ⟨hsz, hsum, hk⟩ := h
+  refine ⟨by simp [hsz], by omega, ?_⟩
+  intro k hkn
+  have hi : s.getD (i1 - 1) 0 = l[i1 - 1]?.getD 0 := by
+    rw [Array.getD_eq_getD_getElem?, hk (i1 - 1) (by omega)]
+    have : ¬ (i1 - 1 < j ∨ i1 ≤ i1 - 1) := by omega
+    simp only [this, if_false, Option.getD_some]
+  have hj : s.getD j 0 = l[j]?.getD 0 := by
+    rw [Array.getD_eq_getD_getElem?, hk j (by omega)]
+    have : ¬ (j < j ∨ i1 ≤ j) := by omega
+    simp only [this, if_false, Option.getD_some]
+  rw [hi, hj, Array.getElem?_setIfInBounds, Array.getElem?_setIfInBounds, Array.size_setIfInBounds]
+  by_cases h1 : i1 - 1 = k
+  · have h2 : k < j + 1 ∨ i1 - 1 ≤ k := by omega
+    have h3 : l.length - 1 - k = j := by omega
+    rw [if_pos h1, if_pos (by omega), if_pos h2, h3]
+  · simp only [h1, if_false]
+    by_cases h4 : j = k
+    · have h2 : k < j + 1 ∨ i1 - 1 ≤ k := by omega
+      have h3 : l.length - 1 - k = i1 - 1 := by omega
+      rw [if_pos h4, if_pos (by omega), if_pos h2, h3]
+    · simp only [h4, if_false]
+      rw [hk k hkn]
+      have : (k < j + 1 ∨ i1 - 1 ≤ k) ↔ (k < j ∨ i1 ≤ k) := by omega
+      simp only [this]
+
+theorem genLoop_spec (f : UInt8 → UInt8) (l : List UInt8) (fuel : Nat) (s : Array UInt8) (i1 j : Nat)
+    (h : LoopInv f l s i1 j) (hf : i1 < fuel + j) :
+    (genLoop f fuel s i1 j).toList = (l.map f).reverse := by
+  induction fuel generalizing s i1 j with
+  | zero => exact h.final (by omega)
+  | succ n ih =>
+    unfold genLoop
+    by_cases hij : i1 ≥ j + 1
+    · simp only [hij, if_true]
+      exact ih _ _ _ (h.step hij) (by omega)
+    · simp only [hij, if_false]
+      exact h.final (by omega)
+
+/-! ## Position transforms -/
+
+theorem subseqPos_some_iff (a n L p : Nat) (np : Int) (ha : a < n + p) :
+    subseqPos a n L p = some np ↔
+      (a < p ∧ p ≤ a + L ∧ np = (p : Int) - a) ∨ (p ≤ a ∧ p + n ≤ a + L ∧ np = (p : Int) + n - a) := by
+  unfold subseqPos
+  simp only [ge_iff_le, Bool.and_eq_true, decide_eq_true_eq]
+  by_cases h1 : (p : Int) - a < 1
+  · simp only [h1, if_true]
+    split
+    · simp only [Option.some.injEq]; omega
+    · simp only [reduceCtorEq, false_iff]; omega
+  · simp only [h1, if_false]
+    split
+    · simp only [Option.some.injEq]; omega
+    · simp only [reduceCtorEq, false_iff]; omega
+
+theorem subseqPos_none_iff (a n L p : Nat) (ha : a < n + p) :
+    subseqPos a n L p = none ↔ ¬ (a < p ∧ p ≤ a + L) ∧ ¬ (p ≤ a ∧ p + n ≤ a + L) := by
+  unfold subseqPos
+  simp only [ge_iff_le, Bool.and_eq_true, decide_eq_true_eq]
+  by_cases h1 : (p : Int) - a < 1
+  · simp only [h1, if_true]
+    split
+    · simp only [reduceCtorEq, false_iff]; omega
+    · simp only [true_iff]; omega
+  · simp only [h1, if_false]
+    split
+    · simp only [reduceCtorEq, false_iff]; omega
+    · simp only [true_iff]; omega
+
+theorem window_length (s : Bytes) (a L : Nat) (h : a + L ≤ 2 * s.length) :
+    (((s ++ s).drop a).take L).length = L := by
+  simp only [List.length_take, List.length_drop, List.length_append]; omega
+
+theorem window_getElem? (s : Bytes) (a L k : Nat) (hk : k < L) :
+    (((s ++ s).drop a).take L)[k]? = (s ++ s)[a + k]? := by
+  rw [List.getElem?_take, if_pos hk, List.getElem?_drop]
+
+theorem double_getElem?_left (s : Bytes) (i : Nat) (h : i < s.length) : (s ++ s)[i]? = s[i]? :=
+  List.getElem?_append_left h
+
+theorem double_getElem?_right (s : Bytes) (i : Nat) : (s ++ s)[s.length + i]? = s[i]? := by
+  rw [List.getElem?_append_right (by omega)]
+  congr 1; omega
+
 end ObiVerif.SeqOps
